@@ -41,7 +41,17 @@ TrSplit ==
     /\ "panic" \notin DOMAIN Ln
     /\ UNCHANGED <<written, ref>> /\ Rest
 
-TrNext == TrReset \/ TrStream \/ TrSplit
+\* the complete byte stream an agent wrote during a session (agent -> server direction): whatever was answered
+\* concurrently (data echoes, request responses, keepalive responses) it is a sequence of whole frames - the agent has
+\* one writer - and, where the driver knows it, of exactly the number of responses handed to that writer
+TrWire ==
+    /\ IsEv("Wire")
+    /\ LET p == Parse(Ln.bytes) IN
+       /\ p.end = "eof"
+       /\ Ln.n >= 0 => Len(p.msgs) = Ln.n
+    /\ UNCHANGED <<written, ref>> /\ Rest
+
+TrNext == TrReset \/ TrStream \/ TrSplit \/ TrWire
 TrSpec == TrInit /\ [][TrNext]_tvars
 HW == HWMark(l)
 Accepted == HWAccepted
